@@ -23,24 +23,35 @@ from vf import core
 PROP = "C12"
 NEEDS_PARSER = True
 FLOOR = 0.4
-RULE = ("Hypothesis-generated programs of the dynamic fragment: top-level scenario (modular or "
-        "plain) with setup and compose, up to 2 nested sub-scenarios invoked with do / do-for / "
-        "do-until (sequential and parallel), 1-4 agents with behaviours and sub-behaviours, "
-        "monitors, record / record initial / record final, terminate after (steps/seconds), "
-        "terminate when, terminate simulation when, terminate, terminate simulation, wait "
-        "for/until, require; each program simulated under several plans = (truth table of its "
-        "atoms, per-step agent schedule, maxSteps 1..8, timestep in {2,1,0.5,0.25}).  A case is "
-        "non-trivial when at least one judged run interleaves >= 3 event kinds in one step and "
-        "ends for a reason other than maxSteps (or is rejected); distinct = digest of program "
-        "and plans.")
+RULE = ("(1) a systematic grid: every duration construct (terminate after / wait for / do for, "
+        "in steps and seconds, 8 durations) and every condition-driven construct (terminate "
+        "[simulation] when, wait until, do until, terminate, terminate simulation) in every "
+        "position (top-level scenario, sub-scenario, compose block, behaviour, sub-behaviour, "
+        "monitor), each under all time steps {2,1,0.5,0.25} resp. all onset steps of the "
+        "condition; (2) Hypothesis-generated programs of the dynamic fragment: top-level "
+        "scenario (modular or plain) with setup and compose, up to 2 nested sub-scenarios "
+        "invoked with do / do-for / do-until (sequential and parallel), 1-4 agents with "
+        "behaviours and sub-behaviours, monitors, records, every termination construct, "
+        "require, preconditions/invariants on scenarios and behaviours; each program simulated "
+        "under 6 plans = (truth table of its atoms, per-step agent schedule returned as list / "
+        "tuple / one-shot iterator, maxSteps 2..8, timestep in {2,1,0.5,0.25}, "
+        "raiseGuardViolations).  A case is non-trivial when at least one judged run interleaves "
+        ">= 3 event kinds in one step and ends for a reason other than maxSteps (or is "
+        "rejected); distinct = digest of program and plans.")
 ASSUMPTIONS = [
     "reference step machine vf.c12_model.Machine written from docs/reference/"
     "dynamic_scenarios.rst and statements.rst; behaviours the reference leaves open are either "
-    "not judged (class unjudged:*) or every reading is accepted (reading flags)",
+    "not judged (class unjudged:*) or every reading is accepted (reading flags "
+    "until_starts_first, beh_term_deferred, termwhen_before_compose, comp_inv_after_sub)",
     "conditions are pure look-ups T(name) in a table indexed by simulation().currentTime, "
     "durations are dyadic so that limit/timestep is exact in floating point",
     "the order of monitors within step 3, of record statements within step 2 and of objects "
-    "within step 9 is not documented: the log is compared modulo these orders",
+    "within step 9 is not documented: the log is compared modulo these orders; sub-scenarios "
+    "of one parallel `do` are stepped in the order written",
+    "the creation and first read-back of the initial objects (before step 0) are not described "
+    "by the reference: only their multiset is checked",
+    "defect models (switches of the reference machine reproducing a known deviation) are used "
+    "only to give a failing run a stable signature, never to accept it",
 ]
 
 TIMESTEPS = [2, 1, 0.5, 0.25]
@@ -68,7 +79,7 @@ def programs(draw):
 
     def gcond():
         a = draw(st.sampled_from(ATOMS))
-        return a if draw(st.integers(0, 3)) == 3 else "!" + a
+        return a if draw(st.integers(0, 6)) == 6 else "!" + a
 
     def dur():
         if draw(st.booleans()):
@@ -451,6 +462,7 @@ def judge(case):
         models = list(DEFECT_MODELS)
         if plan.get("schedule_kind") == "iter":
             models = [({"sched_consumed": True}, "one-shot-schedule-consumed-by-validation")] + \
+                models + \
                 [(dict(d, sched_consumed=True), t + "+one-shot-schedule-consumed-by-validation")
                  for d, t in DEFECT_MODELS]
         for dset, title in models:
